@@ -78,7 +78,8 @@ Definition enc_frugal (f : frugal) : tok :=
 
 (** error kinds: 1 invalid encoding, 2 no match, 3 syntax error, 4 end of service, 5 end of scope,
     6 invalid prefix variable (payload), 7/8 ParseInt syntax/range, 9/10 ParseFloat syntax/range,
-    11 Unquote, 12 unknown statement, 13 panic *)
+    11 Unquote, 12 unknown statement, 13 panic, 14 enum value after the largest integer (payload: enum and
+    value names) *)
 Definition enc_kind (k : perr_kind aerr) : Z * bytes :=
   match k with
   | KInvalidEncoding => (1, [])
@@ -93,6 +94,7 @@ Definition enc_kind (k : perr_kind aerr) : Z * bytes :=
   | KAction (EParseFloat NumRange) => (10, [])
   | KAction EUnquote => (11, [])
   | KAction EUnknownStatement => (12, [])
+  | KAction (EEnumOverflow e v) => (14, e ++ [32] ++ v)
   | KPanic => (13, [])
   end.
 Definition enc_err (e : Z * option nat * perr_kind aerr) : tok :=
